@@ -130,4 +130,43 @@ def call (d : DictId) (name : Option String) (size : Int) (alpha : Option α) : 
   | none => .err "KeyError"
   | some fn => callFunc fn size alpha
 
+/-! ### Histories of calls
+
+A caller may do anything with a list it received — `p.append(p[0])` is what the docstrings of the
+periodic windows recommend to get the symmetric window.  Both templates build a NEW list object on
+every call (`[... for n in xrange(size)]`, `[1.0]`) and `_generate_window_strategies` registers the
+exec'ed functions themselves (no wrapper that keeps results).  Code shaped model of that: an object
+store (`Heap`, index = object identity) to which a call appends its own result and from which no
+call reads; what the caller does in place (`change`, any function) rewrites exactly one stored object. -/
+
+/-- the list objects handed out so far; the position is the object's identity -/
+abbrev Heap (α : Type) := List (List α)
+
+/-- one step of a history: a call, and then what the caller does in place with one of the list
+    objects it holds (`target` = identity of that object; the result of this very call included) -/
+structure Step (α : Type) where
+  d : DictId
+  name : Option String
+  size : Int
+  alpha : Option α
+  target : Nat
+  change : List α → List α
+
+/-- the call of a step, on its own -/
+def Step.call (s : Step α) : Outcome α := ALV.C14.call s.d s.name s.size s.alpha
+
+/-- Run a history from a given store.  Result: per call the outcome and the identity of the returned
+    list object (`none` when the call raised), and the final store. -/
+def runHistory : List (Step α) → Heap α → List (Outcome α × Option Nat) × Heap α
+  | [], h => ([], h)
+  | s :: rest, h =>
+    let r := s.call
+    let alloc : Option Nat × Heap α :=
+      match r with
+      | .ok xs => (some h.length, h ++ [xs])       -- a fresh object
+      | .err _ => (none, h)
+    let h' := alloc.2.modify s.target s.change          -- the caller's in-place change
+    let out := runHistory rest h'
+    ((r, alloc.1) :: out.1, out.2)
+
 end ALV.C14
